@@ -218,14 +218,45 @@ pub fn params_replay(args: &Args) -> i32 {
     let stride = args.num("stride", 1) as usize;
     let jobs: Vec<(usize, usize)> = (0..vecs.len()).flat_map(|vi| (0..streams.len()).filter(move |si| (vi + si) % stride == 0).map(move |si| (vi, si))).collect();
     let counts = std::sync::Mutex::new((0u64, 0u64, 0u64)); // ok, err, viol
-    par_for(jobs.len(), args.num("threads", 12) as usize, |j, _| {
+    // --isolate: every call in a forked child with memory and CPU limits (a decoder that misreads
+    // what the encoder wrote can allocate without bound); single threaded, as fork demands
+    let isolate = args.get("isolate").is_some();
+    par_for(jobs.len(), if isolate { 1 } else { args.num("threads", 12) as usize }, |j, _| {
         let (vi, si) = jobs[j];
         let v = &vecs[vi];
         let (label, s) = &streams[si];
-        let r = guarded(|| verif::roundtrip_with_params(s, v));
+        if isolate && counts.lock().unwrap().2 >= 8 {
+            return; // enough evidence; the isolated mode exists to name culprits, not to finish the sweep
+        }
+        let mut died: Option<String> = None;
+        let r = if !isolate { guarded(|| verif::roundtrip_with_params(s, v)) } else {
+            let child = isolated(1 << 30, 5, || {
+                let r = verif::roundtrip_with_params(s, v);
+                match r {
+                    Err(_) => b"E".to_vec(),
+                    Ok(rt) => serde_json::to_vec(&json!({"rebuilt": hex(&rt.rebuilt), "consumed": rt.consumed, "corrections_len": rt.corrections_len,
+                        "vec_reread": rt.vec_reread, "reconstruct_error": rt.reconstruct_error})).unwrap(),
+                }
+            });
+            match child {
+                Err(how) if how == "panic" => Err("panic in the child process".to_string()),
+                Err(how) => { died = Some(how); Err(String::new()) }
+                Ok(b) if b == b"E" => Ok(Err(verif::roundtrip_with_params(&[], &[]).err().unwrap())), // (any Err value: only the fact is used)
+                Ok(b) => {
+                    let j: Value = serde_json::from_slice(&b).unwrap();
+                    Ok(Ok(verif::ParamRoundtrip {
+                        rebuilt: unhex(j["rebuilt"].as_str().unwrap()), consumed: j["consumed"].as_u64().unwrap() as usize,
+                        corrections_len: j["corrections_len"].as_u64().unwrap() as usize,
+                        vec_reread: j["vec_reread"].as_array().unwrap().iter().map(|x| x.as_u64().unwrap() as u32).collect(),
+                        reconstruct_error: j["reconstruct_error"].as_str().map(|x| x.to_string()),
+                    }))
+                }
+            }
+        };
         let mut viol: Option<(String, String)> = None;
         let mut okk = false;
         match r {
+            Err(_) if died.is_some() => viol = Some(("process-died".into(), format!("analysis and reconstruction under this vector did not return: the process running them was {}", died.unwrap()))),
             Err(p) => viol = Some(("panic".into(), format!("roundtrip_with_params panicked: {}", p))),
             Ok(Err(_)) => {}
             Ok(Ok(rt)) => {
